@@ -88,6 +88,7 @@ type Collector struct {
 	failed    bool
 	lastFail  *failRec
 	known     []Known
+	leg       string
 	maxSamp   int
 	sampEvery int64
 	ntSeen    int64
@@ -332,7 +333,7 @@ func (c *Collector) fileViolationLocked() {
 	_ = os.MkdirAll(dir, 0o755)
 	h := sha256.Sum256(c.lastFail.caseJSON)
 	p := filepath.Join(dir, hex.EncodeToString(h[:6])+".json")
-	wrapper := map[string]any{"property": c.id, "message": c.lastFail.msg, "case": json.RawMessage(c.lastFail.caseJSON)}
+	wrapper := map[string]any{"property": c.id, "leg": c.leg, "message": c.lastFail.msg, "case": json.RawMessage(c.lastFail.caseJSON)}
 	b, _ := json.MarshalIndent(wrapper, "", " ")
 	_ = os.WriteFile(p, b, 0o644)
 	c.st.Violations = append(c.st.Violations, Violation{Replay: p, Message: c.lastFail.msg})
@@ -377,20 +378,79 @@ func (c *Collector) Flush(completed bool) {
 
 // ReplayCase decodes the case of a replay file into v.
 func ReplayCase(path string, v any) error {
+	_, err := replayCaseLeg(path, v)
+	return err
+}
+
+func replayCaseLeg(path string, v any) (string, error) {
 	b, err := os.ReadFile(path)
 	if err != nil {
-		return err
+		return "", err
 	}
 	var w struct {
+		Leg  string          `json:"leg"`
 		Case json.RawMessage `json:"case"`
 	}
 	if err := json.Unmarshal(b, &w); err != nil {
-		return err
+		return "", err
 	}
 	if len(w.Case) == 0 {
 		w.Case = b
 	}
-	return json.Unmarshal(w.Case, v)
+	dec := json.NewDecoder(strings.NewReader(string(w.Case)))
+	return w.Leg, dec.Decode(v)
+}
+
+// ReplayLeg returns the leg (Test function name) recorded in the replay file of this
+// run, "" when not in replay mode or when the file names none.
+func ReplayLeg() string {
+	rp := os.Getenv("VERIF_REPLAY")
+	if rp == "" {
+		return ""
+	}
+	var x any
+	leg, _ := replayCaseLeg(rp, &x)
+	return leg
+}
+
+// Replaying reports whether this run only replays a file.
+func Replaying() bool { return os.Getenv("VERIF_REPLAY") != "" }
+
+// SetLeg names the leg (Test function) that subsequent records belong to.
+func (c *Collector) SetLeg(leg string) { c.mu.Lock(); c.leg = leg; c.mu.Unlock() }
+
+// HandleReplay implements replay mode for one leg: when the run is a replay and the file
+// belongs to this leg (or names no leg), the case is decoded and decided by prop. It
+// returns true when the run is a replay (the caller must then return).
+func HandleReplay[C any](t *testing.T, c *Collector, prop func(C) (Outcome, error)) bool {
+	t.Helper()
+	rp := os.Getenv("VERIF_REPLAY")
+	if rp == "" {
+		return false
+	}
+	var cs C
+	leg, err := replayCaseLeg(rp, &cs)
+	if leg != "" && leg != t.Name() {
+		t.Skipf("replay file is for leg %s", leg)
+		return true
+	}
+	if err != nil {
+		if leg == "" {
+			t.Skipf("replay file does not decode for this leg: %v", err)
+			return true
+		}
+		t.Fatalf("replay: cannot decode %s: %v", rp, err)
+	}
+	c.SetLeg(t.Name())
+	o, perr := Safe(prop)(cs)
+	c.Record(cs, o, perr)
+	c.FileViolation()
+	if perr != nil {
+		t.Errorf("replay of %s fails: %v", rp, perr)
+	} else {
+		t.Logf("replay of %s passes", rp)
+	}
+	return true
 }
 
 func witnessPath(w string) string {
@@ -414,20 +474,11 @@ func Check[C any](t *testing.T, c *Collector, checks int, gen func(*rapid.T) C, 
 	prop := Safe(prop0)
 	completed := false
 	defer func() { c.Flush(completed) }()
-	if rp := os.Getenv("VERIF_REPLAY"); rp != "" {
-		var cs C
-		if err := ReplayCase(rp, &cs); err != nil {
-			t.Fatalf("replay: cannot decode %s: %v", rp, err)
-		}
-		o, err := prop(cs)
-		c.Record(cs, o, err)
+	if HandleReplay(t, c, prop0) {
 		completed = true
-		if err != nil {
-			t.Fatalf("replay of %s fails: %v", rp, err)
-		}
-		t.Logf("replay of %s passes", rp)
 		return
 	}
+	c.SetLeg(t.Name())
 	ReplayKnown(t, c, prop)
 	_ = flag.Set("rapid.checks", strconv.Itoa(checks))
 	_ = flag.Set("rapid.seed", strconv.FormatUint(Seed(), 10))
@@ -501,6 +552,7 @@ type Enumerator struct {
 
 // NewEnumerator prepares an enumeration run.
 func NewEnumerator(t *testing.T, c *Collector) *Enumerator {
+	c.SetLeg(t.Name())
 	return &Enumerator{C: c, T: t, Cap: 5}
 }
 
